@@ -1476,4 +1476,286 @@ theorem arrayBuilder_two_fields {cols1 cols2 : List String} {rows1 rows2 : List 
     · exact arrayExpected_values_wf c hc
     · exact arrayExpected_values_wf c hc
 
+/-! ### two frames, `period_resolution` inferred -/
+
+/-- **arrayBuilder_two_fields_inferred**: as `arrayBuilder_two_fields`, with `period_resolution=None`: each of the
+two single-frame readers infers the resolution from ITS first two period starts (`round` of the fractional
+month lag, fix D19). Beyond `RegFrame` the only hypotheses are the ones inference itself needs (those of
+`fromArrayFrame_args_inferred`): each frame has at least two rows and its first two period starts are `res`
+months apart. Then the builder RETURNS `out` and `Spec.mergeSpec .full none (arrayExpected n1 …) (arrayExpected n2 …) out`
+holds. (A frame with fewer than two rows, or frames whose inferred resolutions differ, are outside this
+statement.) -/
+theorem arrayBuilder_two_fields_inferred {cols1 cols2 : List String} {rows1 rows2 : List (Date × List Val)}
+    {n1 n2 : String} {md : Metadata} {res : Int} {evalRes : Option Int} {fe : Bool}
+    (h1 : RegFrame n1 md res (fe || (effectiveEvalResolution cols1 res evalRes).isSome)
+          (columnLags cols1 (effectiveEvalResolution cols1 res evalRes)) rows1)
+    (h2 : RegFrame n2 md res (fe || (effectiveEvalResolution cols2 res evalRes).isSome)
+          (columnLags cols2 (effectiveEvalResolution cols2 res evalRes)) rows2)
+    (hp1 : ∃ r0 r1 rest, rows1 = r0 :: r1 :: rest ∧ monthToId r1.1 = monthToId r0.1 + res)
+    (hp2 : ∃ r0 r1 rest, rows2 = r0 :: r1 :: rest ∧ monthToId r1.1 = monthToId r0.1 + res) :
+    ∃ out, arrayTriangleBuilder
+        [{ cols := cols1, rows := rows1.map fun r => (PeriodEntry.date r.1, r.2) },
+         { cols := cols2, rows := rows2.map fun r => (PeriodEntry.date r.1, r.2) }] [n1, n2] none evalRes fe md =
+        .ok out ∧
+      Spec.mergeSpec .full none
+        (arrayExpected n1 md res (fe || (effectiveEvalResolution cols1 res evalRes).isSome)
+          (columnLags cols1 (effectiveEvalResolution cols1 res evalRes)) rows1)
+        (arrayExpected n2 md res (fe || (effectiveEvalResolution cols2 res evalRes).isSome)
+          (columnLags cols2 (effectiveEvalResolution cols2 res evalRes)) rows2) out = true := by
+  have hb : arrayTriangleBuilder
+        [{ cols := cols1, rows := rows1.map fun r => (PeriodEntry.date r.1, r.2) },
+         { cols := cols2, rows := rows2.map fun r => (PeriodEntry.date r.1, r.2) }] [n1, n2] none evalRes fe md =
+      merge (some .full) none
+        (arrayExpected n1 md res (fe || (effectiveEvalResolution cols1 res evalRes).isSome)
+          (columnLags cols1 (effectiveEvalResolution cols1 res evalRes)) rows1)
+        (arrayExpected n2 md res (fe || (effectiveEvalResolution cols2 res evalRes).isSome)
+          (columnLags cols2 (effectiveEvalResolution cols2 res evalRes)) rows2) := by
+    rw [(arrayBuilder_spec _ _ n1 n2 none evalRes fe md).2.1, fromArrayFrame_args_inferred h1 hp1,
+      fromArrayFrame_args_inferred h2 hp2]
+    rfl
+  obtain ⟨out, hout⟩ := merge_cumulative_returns
+    (a := arrayExpected n1 md res (fe || (effectiveEvalResolution cols1 res evalRes).isSome)
+          (columnLags cols1 (effectiveEvalResolution cols1 res evalRes)) rows1)
+    (b := arrayExpected n2 md res (fe || (effectiveEvalResolution cols2 res evalRes).isSome)
+          (columnLags cols2 (effectiveEvalResolution cols2 res evalRes)) rows2)
+    arrayExpected_cumulative arrayExpected_cumulative
+  refine ⟨out, hb.trans hout, ?_⟩
+  apply Bermuda.Properties.C10.mergeSpec_of_merge _ _ hout
+  · unfold Spec.joinHyp
+    simp only [Spec.onCells, Bool.and_eq_true]
+    exact ⟨Bermuda.nodupB_iff.mpr (arrayExpected_keys_nodup h1 _),
+      Bermuda.nodupB_iff.mpr (arrayExpected_keys_nodup h2 _)⟩
+  · intro c hc
+    rcases List.mem_append.mp hc with hc | hc
+    · exact arrayExpected_values_wf c hc
+    · exact arrayExpected_values_wf c hc
+
+/-! ### any number of frames: the builder's fold of merges -/
+
+/-- the full-join merge of two all-cumulative triangles returns an all-cumulative triangle -/
+theorem merge_cumulative_closed {a b : List Cell} (ha : ∀ c ∈ a, c.kind = .cumulative)
+    (hb : ∀ c ∈ b, c.kind = .cumulative) :
+    ∃ out, merge (some .full) none a b = .ok out ∧ ∀ c ∈ out, c.kind = .cumulative := by
+  obtain ⟨out, hout⟩ := merge_cumulative_returns ha hb
+  refine ⟨out, hout, ?_⟩
+  obtain ⟨ps, hj, hperm, _⟩ := Bermuda.Properties.C10.merge_ok hout
+  have hlast := Bermuda.Properties.C10.join_pairs_last hj
+  intro c hc
+  obtain ⟨p, hp, hpc⟩ := List.mem_filterMap.mp (hperm.mem_iff.mp hc)
+  obtain ⟨k, _, hpe⟩ := hlast p hp
+  simp only [Spec.sortedOn] at hpe
+  rcases p with ⟨p1, p2⟩
+  simp only [Prod.mk.injEq] at hpe
+  obtain ⟨e1, e2⟩ := hpe
+  cases p1 with
+  | none =>
+    cases p2 with
+    | none => simp [mergeCellPair] at hpc
+    | some y =>
+      simp only [mergeCellPair, Option.some.injEq] at hpc
+      subst hpc
+      exact hb _ (cellAtLast_mem e2.symm)
+  | some x =>
+    have hx := ha _ (cellAtLast_mem e1.symm)
+    cases p2 with
+    | none =>
+      simp only [mergeCellPair, Option.some.injEq] at hpc
+      subst hpc; exact hx
+    | some y =>
+      simp only [mergeCellPair, Option.some.injEq] at hpc
+      subst hpc; exact hx
+
+/-- a left fold of full-join merges over all-cumulative triangles returns (an all-cumulative triangle) -/
+theorem foldlM_merge_cumulative : ∀ (ts : List (List Cell)) (acc : List Cell),
+    (∀ c ∈ acc, c.kind = .cumulative) → (∀ t ∈ ts, ∀ c ∈ t, c.kind = .cumulative) →
+    ∃ out, ts.foldlM (fun acc t => merge (some .full) none acc t) acc = .ok out ∧
+      ∀ c ∈ out, c.kind = .cumulative
+  | [], acc, ha, _ => ⟨acc, rfl, ha⟩
+  | t :: ts, acc, ha, hts => by
+    obtain ⟨o1, h1, hc1⟩ := merge_cumulative_closed ha (hts t List.mem_cons_self)
+    obtain ⟨out, h2, hc2⟩ := foldlM_merge_cumulative ts o1 hc1 (fun t' ht' => hts t' (List.mem_cons_of_mem _ ht'))
+    refine ⟨out, ?_, hc2⟩
+    rw [List.foldlM_cons, h1]
+    exact h2
+
+/-- one frame of the builder's argument lists: column labels, rows, field name -/
+abbrev FrameSpec := List String × List (Date × List Val) × String
+
+def FrameSpec.frame (s : FrameSpec) : ArrayFrame :=
+  { cols := s.1, rows := s.2.1.map fun r => (PeriodEntry.date r.1, r.2) }
+
+def FrameSpec.expected (md : Metadata) (res : Int) (evalRes : Option Int) (fe : Bool) (s : FrameSpec) : List Cell :=
+  arrayExpected s.2.2 md res (fe || (effectiveEvalResolution s.1 res evalRes).isSome)
+    (columnLags s.1 (effectiveEvalResolution s.1 res evalRes)) s.2.1
+
+def FrameSpec.Reg (md : Metadata) (res : Int) (evalRes : Option Int) (fe : Bool) (s : FrameSpec) : Prop :=
+  RegFrame s.2.2 md res (fe || (effectiveEvalResolution s.1 res evalRes).isSome)
+    (columnLags s.1 (effectiveEvalResolution s.1 res evalRes)) s.2.1
+
+theorem builderFold_eq {md : Metadata} {res : Int} {evalRes : Option Int} {fe : Bool} :
+    ∀ (rest : List FrameSpec) (acc : List Cell), (∀ s ∈ rest, s.Reg md res evalRes fe) →
+    (rest.map fun s => (s.frame, s.2.2)).foldlM (fun acc p =>
+      (fromArrayFrameFull p.1 p.2 (some res) evalRes fe md).bind fun t => merge (some .full) none acc t) acc =
+    (rest.map (FrameSpec.expected md res evalRes fe)).foldlM (fun acc t => merge (some .full) none acc t) acc
+  | [], _, _ => rfl
+  | s :: rest, acc, h => by
+    have hs : fromArrayFrameFull s.frame s.2.2 (some res) evalRes fe md = .ok (s.expected md res evalRes fe) :=
+      fromArrayFrame_args (h s List.mem_cons_self)
+    rw [List.map_cons, List.foldlM_cons, List.map_cons, List.foldlM_cons]
+    simp only [hs, Except.bind]
+    cases hm : merge (some .full) none acc (s.expected md res evalRes fe) with
+    | error e => rfl
+    | ok o => exact builderFold_eq rest o (fun s' hs' => h s' (List.mem_cons_of_mem _ hs'))
+
+/-- **arrayBuilder_fields_partial** (any number n ≥ 1 of frames `s0 :: rest`, each a `RegFrame` for the common
+`metadata`, explicit `period_resolution=res`, `eval_resolution`, `dev_lag_from_period_end`): the builder's result
+IS the left fold of full-join merges over the explicitly described single-field triangles
+`FrameSpec.expected … s`, starting from the first frame's, and it RETURNS (an all-`CumulativeCell` triangle).
+What each merge step does is `arrayBuilder_fields` below (`mergeSpec` at every step). -/
+theorem arrayBuilder_fields_partial {md : Metadata} {res : Int} {evalRes : Option Int} {fe : Bool}
+    (s0 : FrameSpec) (rest : List FrameSpec) (h : ∀ s ∈ s0 :: rest, s.Reg md res evalRes fe) :
+    arrayTriangleBuilder ((s0 :: rest).map FrameSpec.frame) ((s0 :: rest).map (·.2.2)) (some res) evalRes fe md =
+      (rest.map (FrameSpec.expected md res evalRes fe)).foldlM (fun acc t => merge (some .full) none acc t)
+        (s0.expected md res evalRes fe) ∧
+    ∃ out, arrayTriangleBuilder ((s0 :: rest).map FrameSpec.frame) ((s0 :: rest).map (·.2.2)) (some res) evalRes fe md =
+      .ok out ∧ ∀ c ∈ out, c.kind = .cumulative := by
+  have hs0 : fromArrayFrameFull s0.frame s0.2.2 (some res) evalRes fe md = .ok (s0.expected md res evalRes fe) :=
+    fromArrayFrame_args (h s0 List.mem_cons_self)
+  have heq : arrayTriangleBuilder ((s0 :: rest).map FrameSpec.frame) ((s0 :: rest).map (·.2.2)) (some res) evalRes fe md =
+      (rest.map (FrameSpec.expected md res evalRes fe)).foldlM (fun acc t => merge (some .full) none acc t)
+        (s0.expected md res evalRes fe) := by
+    unfold arrayTriangleBuilder
+    have hz : (rest.map FrameSpec.frame).zip (rest.map (·.2.2)) = rest.map fun s => (s.frame, s.2.2) := by
+      rw [List.zip_map']
+    simp only [List.map_cons, List.length_cons, List.length_map, bne_self_eq_false, Bool.false_eq_true, if_false,
+      List.zip_cons_cons, hz, hs0, Except.bind]
+    exact builderFold_eq rest _ (fun s hs => h s (List.mem_cons_of_mem _ hs))
+  refine ⟨heq, ?_⟩
+  rw [heq]
+  exact foldlM_merge_cumulative _ _ arrayExpected_cumulative (by
+    intro t ht
+    obtain ⟨s, _, rfl⟩ := List.mem_map.mp ht
+    exact arrayExpected_cumulative)
+
+/-- what every triangle in the builder's fold is: all `CumulativeCell`s, distinct coordinates, value dicts with
+distinct keys -/
+structure CumTriangle (a : List Cell) : Prop where
+  cum : ∀ c ∈ a, c.kind = .cumulative
+  nd : (a.map (joinKey false)).Nodup
+  wf : ∀ c ∈ a, c.values.WF
+
+theorem isIncremental_cum {a : List Cell} (h : ∀ c ∈ a, c.kind = .cumulative) : isIncremental a = false := by
+  cases a with
+  | nil => rfl
+  | cons c _ => simp [isIncremental, h c (by simp)]
+
+/-- one step of the builder's fold: the merge returns, satisfies `mergeSpec`, and the result is again a
+`CumTriangle` -/
+theorem merge_step {a b : List Cell} (ha : CumTriangle a) (hb : CumTriangle b) :
+    ∃ o, merge (some .full) none a b = .ok o ∧ Spec.mergeSpec .full none a b o = true ∧ CumTriangle o := by
+  obtain ⟨o, ho, hcum⟩ := merge_cumulative_closed ha.cum hb.cum
+  have hinc := isIncremental_cum ha.cum
+  have hspec : Spec.mergeSpec .full none a b o = true := by
+    apply Bermuda.Properties.C10.mergeSpec_of_merge _ _ ho
+    · unfold Spec.joinHyp
+      simp only [Spec.onCells, Bool.and_eq_true, hinc]
+      exact ⟨Bermuda.nodupB_iff.mpr ha.nd, Bermuda.nodupB_iff.mpr hb.nd⟩
+    · intro c hc
+      rcases List.mem_append.mp hc with hc | hc
+      · exact ha.wf c hc
+      · exact hb.wf c hc
+  refine ⟨o, ho, hspec, hcum, ?_, ?_⟩
+  · have := hspec
+    unfold Spec.mergeSpec at this
+    simp only [Bool.and_eq_true, hinc] at this
+    exact Bermuda.nodupB_iff.mp this.1.1
+  · obtain ⟨ps, hj, hperm, _⟩ := Bermuda.Properties.C10.merge_ok ho
+    have hlast := Bermuda.Properties.C10.join_pairs_last hj
+    intro c hc
+    obtain ⟨p, hp, hpc⟩ := List.mem_filterMap.mp (hperm.mem_iff.mp hc)
+    obtain ⟨k, _, hpe⟩ := hlast p hp
+    simp only [Spec.sortedOn] at hpe
+    rcases p with ⟨p1, p2⟩
+    simp only [Prod.mk.injEq] at hpe
+    obtain ⟨e1, e2⟩ := hpe
+    cases p1 with
+    | none =>
+      cases p2 with
+      | none => simp [mergeCellPair] at hpc
+      | some y =>
+        simp only [mergeCellPair, Option.some.injEq] at hpc
+        subst hpc
+        exact hb.wf _ (cellAtLast_mem e2.symm)
+    | some x =>
+      have hx := ha.wf _ (cellAtLast_mem e1.symm)
+      cases p2 with
+      | none =>
+        simp only [mergeCellPair, Option.some.injEq] at hpc
+        subst hpc; exact hx
+      | some y =>
+        simp only [mergeCellPair, Option.some.injEq] at hpc
+        subst hpc; exact Dict.WF_union hx _
+
+/-- `MergeChain acc ts out`: `out` is reached from `acc` by merging the triangles `ts` in one after the other, each
+step returning and satisfying `Spec.mergeSpec .full none` -/
+inductive MergeChain : List Cell → List (List Cell) → List Cell → Prop
+  | nil (acc : List Cell) : MergeChain acc [] acc
+  | cons {acc t o : List Cell} {ts : List (List Cell)} {out : List Cell} :
+      merge (some .full) none acc t = .ok o → Spec.mergeSpec .full none acc t o = true →
+      MergeChain o ts out → MergeChain acc (t :: ts) out
+
+theorem foldlM_merge_chain : ∀ (ts : List (List Cell)) (acc : List Cell), CumTriangle acc →
+    (∀ t ∈ ts, CumTriangle t) →
+    ∃ out, ts.foldlM (fun acc t => merge (some .full) none acc t) acc = .ok out ∧ MergeChain acc ts out ∧
+      CumTriangle out
+  | [], acc, ha, _ => ⟨acc, rfl, .nil acc, ha⟩
+  | t :: ts, acc, ha, hts => by
+    obtain ⟨o, h1, hs, ho⟩ := merge_step ha (hts t List.mem_cons_self)
+    obtain ⟨out, h2, hch, hout⟩ := foldlM_merge_chain ts o ho (fun t' ht' => hts t' (List.mem_cons_of_mem _ ht'))
+    refine ⟨out, ?_, .cons h1 hs hch, hout⟩
+    rw [List.foldlM_cons, h1]
+    exact h2
+
+theorem FrameSpec.expected_cumTriangle {md : Metadata} {res : Int} {evalRes : Option Int} {fe : Bool}
+    {s : FrameSpec} (h : s.Reg md res evalRes fe) : CumTriangle (s.expected md res evalRes fe) :=
+  ⟨arrayExpected_cumulative, arrayExpected_keys_nodup h false, arrayExpected_values_wf⟩
+
+/-- **arrayBuilder_fields** (any number n ≥ 1 of frames): `array_triangle_builder(dfs, fields, period_resolution=res, …)`
+on `RegFrame`s `s0 :: rest` RETURNS a triangle `out`, and `out` is reached from the first frame's single-field
+triangle by merging the further frames' triangles in one after the other (`MergeChain`), EVERY step returning
+and satisfying `Spec.mergeSpec .full none` (distinct coordinates; a coordinate on both sides = the accumulated
+cell with the right-biased union of the value dicts, i.e. the new frame's field added, a later frame winning on
+a repeated field name; a coordinate on one side only = that side's cell unchanged; no coordinate lost); `out` has
+only `CumulativeCell`s, distinct coordinates, value dicts with distinct keys. For `rest = []` this is the single
+reader, for one further frame `arrayBuilder_two_fields`. No hypothesis beyond `RegFrame` per frame. -/
+theorem arrayBuilder_fields {md : Metadata} {res : Int} {evalRes : Option Int} {fe : Bool}
+    (s0 : FrameSpec) (rest : List FrameSpec) (h : ∀ s ∈ s0 :: rest, s.Reg md res evalRes fe) :
+    ∃ out, arrayTriangleBuilder ((s0 :: rest).map FrameSpec.frame) ((s0 :: rest).map (·.2.2)) (some res) evalRes fe md =
+        .ok out ∧
+      MergeChain (s0.expected md res evalRes fe) (rest.map (FrameSpec.expected md res evalRes fe)) out ∧
+      CumTriangle out := by
+  rw [(arrayBuilder_fields_partial s0 rest h).1]
+  exact foldlM_merge_chain _ _ (FrameSpec.expected_cumTriangle (h s0 List.mem_cons_self)) (by
+    intro t ht
+    obtain ⟨s, hs, rfl⟩ := List.mem_map.mp ht
+    exact FrameSpec.expected_cumTriangle (h s (List.mem_cons_of_mem _ hs)))
+
+/-- non-vacuity with THREE frames (the two of `arrayBuilder_two_fields_example_domain`, the second used twice
+under different field names) -/
+example : ∃ out, arrayTriangleBuilder
+    (([(["0"], [(⟨2021, 4, 1⟩, [.flt 1])], "paid_loss"), (["0"], [(⟨2021, 4, 1⟩, [.int 2])], "reported_loss"),
+       (["0"], [(⟨2021, 4, 1⟩, [.int 2])], "incurred_loss")] : List FrameSpec).map FrameSpec.frame)
+    ["paid_loss", "reported_loss", "incurred_loss"] (some 3) (some 3) true {} = .ok out ∧ CumTriangle out := by
+  have hreg : ∀ s ∈ ([(["0"], [(⟨2021, 4, 1⟩, [.flt 1])], "paid_loss"), (["0"], [(⟨2021, 4, 1⟩, [.int 2])], "reported_loss"),
+       (["0"], [(⟨2021, 4, 1⟩, [.int 2])], "incurred_loss")] : List FrameSpec), s.Reg {} 3 (some 3) true := by
+    intro s hs
+    simp only [List.mem_cons, List.not_mem_nil, or_false] at hs
+    rcases hs with rfl | rfl | rfl
+    · exact arrayBuilder_two_fields_example_domain.1
+    · exact arrayBuilder_two_fields_example_domain.2
+    · exact { res1 := by decide, first := by decide, asc := by simp, lagsAsc := by decide,
+              fromStart := (by intro h; cases h), dates := (by decide +kernel) }
+  obtain ⟨out, h1, _, h3⟩ := arrayBuilder_fields _ _ hreg
+  exact ⟨out, h1, h3⟩
+
 end Bermuda.Properties.C14
